@@ -29,7 +29,7 @@ def generate(seed, tier):
             r["extra"] = 0          # a bare flat handle takes its size from the file
         size = r["cap"] * 512
         pts = gen_vmdk.extent_points(r)
-        qs = [["o", o, l] for o, l in gen_vmdk.gen_queries(rng, size, pts, 9 if tier == "quick" else 14)]
+        qs = [["o", o, l] for o, l in gen_vmdk.gen_queries(rng, size, pts, 9 if tier == "quick" else 14) + gen_vmdk.hot_queries(r)]
         align = rng.choice([8192] * 6 + [512, 1536, 4096, 65536, 1 << 20])
         cases.append({"id": f"g{i}", "recipe": r, "align": align, "queries": qs})
     return cases
